@@ -162,8 +162,11 @@ def outcome(prog, j, pred):
       if f in d['bagcols'] and isinstance(v, list):
         v = sorted(v, key=lambda x: (x is None, str(type(x)), x))
       cells.append(v)
-    rows.append(common.canon(cells))
-  return ('ok', tuple(res[1]), tuple(sorted(rows)))
+    # a row is a record: columns are compared by name, in the order of the sorted header (a permutation of the
+    # rules changes which rule comes first, and with it the order in which the columns are listed)
+    order = sorted(range(len(res[1])), key=lambda i: str(res[1][i]))
+    rows.append(common.canon([cells[i] for i in order] if len(cells) == len(order) else cells))
+  return ('ok', tuple(sorted(map(str, res[1]))), tuple(sorted(rows)))
 
 
 def run_core(rep, pid, tier, profile, variants, n_quick, n_thorough, salt, replay=None, ok=True, info=None,
